@@ -1,2 +1,36 @@
-From TV Require Import Base.
-Example C10_placeholder : True. Proof. exact I. Qed.
+(* C10 -- unconnected parts of a simulation never influence each other.
+   Proved here, for every configuration and history:
+   (1) topics: two components never share a topic, and no input topic is an output topic -- with the
+       prefix / suffixes extracted from the current source (Gen/SourceConsts.v); the bus delivers per
+       topic (C15), so messages of one component are never seen by another's handler;
+   (2) frame: updating a device touches the state of that device only, and a component outside the
+       extent of a tick (not a root, nothing upstream of it touched) is not touched at all;
+   (3) see [C10_tick_noninterference] below (added when proved) for whole ticks.
+   PARTIAL: equality of every old device's full observation sequence between a run and the run
+   extended by a disconnected part (with its own callbacks, adapters, nested systems) is decided per
+   pair of runs of the real schedulers (code 91) and, for adapters / EPICS records, on the real
+   adapter classes; it is not a theorem over multi-tick master histories.  Property theorems only. *)
+From TV Require Import Base Gen.SourceConsts Model.Topics Model.Wiring Model.Ticker Model.Component Model.Sim
+  Proofs.TopicsP Proofs.SimP Proofs.FlattenP.
+Open Scope Z_scope.
+
+Theorem C10_topics_disjoint : forall a b,
+  (input_topic a = input_topic b -> a = b) /\
+  (output_topic a = output_topic b -> a = b) /\
+  input_topic a <> output_topic b.
+Proof.
+  intros a b. split; [apply input_topic_inj | split; [apply output_topic_inj|]].
+  apply in_out_disjoint. exact consts_ok_now.
+Qed.
+
+Theorem C10_update_frame : forall devf s c time chg c',
+  c' <> c ->
+  let '(s', _, _, _) := dev_update devf s c time chg in
+  lookup c' (s_dc s') = lookup c' (s_dc s) /\ lookup c' (s_n s') = lookup c' (s_n s) /\
+  s_wake s' = s_wake s /\ s_int s' = s_int s.
+Proof. intros devf. apply (dev_update_frame devf). Qed.
+
+Theorem C10_outside_extent_untouched : forall devf inner lv conns time roots ext a ck,
+  in_extent conns roots (ta_touched a) (fst ck) = false ->
+  tick_step devf inner lv conns time roots ext a ck = a.
+Proof. intros devf. apply (tick_step_outside devf). Qed.
